@@ -6,6 +6,9 @@
 import TinyHttpModel.Lts.Pool
 import TinyHttpModel.Lts.Server
 import TinyHttpModel.Lemmas.PoolInv
+import TinyHttpModel.Lts.Whole
+import TinyHttpModel.Lemmas.WholeInv
+import TinyHttpModel.Lemmas.WholeWindDown
 
 namespace TH.Props.C20
 open TH.Lts.Pool
@@ -97,5 +100,129 @@ theorem no_accept_after_exit (ls : List SLabel) (s : SState) (h : srun {} ls = s
   refine ⟨hi.c he, ?_⟩
   intro c
   simp [sstep, he]
+
+/-! ### the whole server winds down (`Lts.Whole`): pool × queue × connections -/
+
+/-- the steps the server takes on its own once the clients are gone: the pool's own steps (a
+    worker begins, looks at the list of tasks, is woken — by a time-out or spuriously —, time
+    passes), pushes and task ends.  No accept, no `dropPool`, no client action (`arrive`, `close`),
+    no receiver action on the queue. -/
+def Lts.Whole.isWindDown : Lts.Whole.Label → Bool
+  | .pool (.begin _) => true
+  | .pool (.look _) => true
+  | .pool (.wake _ _) => true
+  | .pool (.tick _) => true
+  | .push _ _ => true
+  | .done _ => true
+  | _ => false
+
+theorem isWindDown_of_isWind {l : Lts.Whole.Label} (h : Lts.Whole.IsWind l) :
+    Lts.Whole.isWindDown l = true := by
+  cases h <;> rfl
+
+/-- Dropped server, clients gone, requests nobody received still queued: every worker thread is
+    reclaimed.  From every reachable state of the whole server in which the pool has been dropped
+    and every connection is closed — whatever the workers are doing (not started yet, in the
+    middle of pushing a connection's requests, woken by the drop, waiting), whatever is still
+    queued in the pool or in the request queue — there is a continuation made only of the
+    server's own wind-down steps after which no live worker is left, no task is queued, and
+    nothing was lost on the way: every connection's thread has queued everything its client sent,
+    and everything every client ever sent is, as a multiset, exactly what receivers had taken
+    before plus what is in the request queue now, each connection's requests in wire order.
+
+    Hypothesis `hb` (fewer than 999 999 995 threads ever created) is needed: `dropPool` stores
+    999999999 in `active_tasks` and every worker that exits afterwards takes one off, so after a
+    billion exits a worker that looks again (after a spurious wake-up) would find
+    `active_tasks ≤ MIN_THREADS` and wait without a time limit, for ever (same in task_pool.rs). -/
+theorem whole_drop_reclaims_every_worker (s : Lts.Whole.State) (h : Lts.Whole.Reachable s)
+    (hd : s.pool.dropped = true) (hc : ∀ c ∈ s.conns, c.closed = true)
+    (hb : s.pool.workers.length + minThreads < droppedActive) :
+    ∃ ls s', (∀ l ∈ ls, Lts.Whole.isWindDown l = true) ∧ Lts.Whole.run s ls = some s' ∧
+      count s'.pool isLive = 0 ∧ s'.pool.pending = [] ∧
+      (∀ (k : Nat) (c' : Lts.Whole.Conn), s'.conns[k]? = some c' → c'.pushed = c'.sent.length) ∧
+      s'.conns.map (·.sent) = s.conns.map (·.sent) ∧
+      s'.queue.taken = s.queue.taken ∧
+      (s.queue.taken ++ Lts.Queue.elems s'.queue.queue).Perm (Lts.Whole.allSent s) ∧
+      (∀ c' ∈ s'.conns, c'.sent.Sublist (s.queue.taken ++ Lts.Queue.elems s'.queue.queue)) := by
+  obtain ⟨ls, s', hls, hrun, _, hp, hrest, hpend, hpu, hperm, hsub⟩ :=
+    Lts.Whole.wind_down h hc (fun _ => hb)
+  rw [hd] at hrest
+  exact ⟨ls, s', fun l hl => isWindDown_of_isWind (hls l hl), hrun,
+    Lts.Whole.live_zero_of_rest hrest, hpend, hpu, hp.sent, hp.taken, hperm, hsub⟩
+
+/-- non-vacuity: a dropped server with 7 live workers (two woken by the drop, two not started, one
+    in the middle of its connection, two fresh threads carrying connections), one connection
+    still queued in the pool, three requests not queued yet, every client gone. -/
+example : ∃ s, Lts.Whole.run {} [.accept .newThread, .accept .newThread, .accept .newThread,
+      .arrive 0 10, .arrive 0 11, .arrive 1 20, .pool (.begin 0), .pool (.begin 1),
+      .pool (.begin 4), .push 4 none, .pool (.look 0), .pool (.look 1),
+      .accept (.queued (some 0)), .arrive 3 30,
+      .close 0, .close 1, .close 2, .close 3, .pool .dropPool] = some s ∧
+    s.pool.dropped = true ∧ (∀ c ∈ s.conns, c.closed = true) ∧
+    s.pool.workers.length + minThreads < droppedActive ∧
+    5 ≤ count s.pool isLive ∧ s.pool.pending ≠ [] ∧ ∃ c ∈ s.conns, c.pushed < c.sent.length :=
+  ⟨_, rfl, by decide⟩
+
+theorem isWind_of_isWindDown {l : Lts.Whole.Label} (h : Lts.Whole.isWindDown l = true) :
+    Lts.Whole.IsWind l := by
+  cases l with
+  | pool pl => cases pl <;> first | constructor | (simp [Lts.Whole.isWindDown] at h)
+  | push w woke => exact .push w woke
+  | done w => exact .done w
+  | _ => simp [Lts.Whole.isWindDown] at h
+
+/-- The bound `hb` of `whole_drop_reclaims_every_worker` cannot be removed: there is a reachable
+    state of the whole server, pool dropped and every client gone, from which NO wind-down
+    continuation reclaims every worker.  (Witness, `Lts.Whole.stuck_reachable`: 999 999 992
+    connections accepted, each on its own thread; all 999 999 996 threads begin, finish and go to
+    sleep; the pool is dropped (`active_tasks := 999999999`); everybody looks and starts a timed
+    wait; the idle period passes; 999 999 995 threads time out and exit (`active_tasks = 4`); the
+    last one is woken spuriously instead, looks, finds `active_tasks ≤ MIN_THREADS` and waits
+    without a time limit — nothing will ever notify it.  The same arithmetic is in task_pool.rs;
+    it needs a billion threads, so it is of no practical concern.) -/
+theorem whole_drop_reclaim_needs_thread_bound :
+    ∃ s, Lts.Whole.Reachable s ∧ s.pool.dropped = true ∧ (∀ c ∈ s.conns, c.closed = true) ∧
+      ∀ ls s', (∀ l ∈ ls, Lts.Whole.isWindDown l = true) → Lts.Whole.run s ls = some s' →
+        count s'.pool isLive ≠ 0 := by
+  obtain ⟨s, w, hr, hst, hc⟩ := Lts.Whole.stuck_reachable
+  refine ⟨s, hr, hst.dropped, hc, ?_⟩
+  intro ls s' hls hrun
+  exact Lts.Whole.stuck_live
+    (Lts.Whole.stuck_run ls s s' hst (fun l hl => isWind_of_isWindDown (hls l hl)) hrun)
+
+/-- Live server, clients gone: the number of threads returns to its baseline.  From every
+    reachable state of the whole server in which the pool is alive and every connection is closed
+    — after any burst, whatever the workers are doing — there is a continuation made only of the
+    server's own wind-down steps after which at most `MIN_THREADS` workers are alive (all of them
+    waiting without a time limit, every other thread has exited), no task is queued, and nothing
+    was lost on the way (as above). -/
+theorem whole_idle_returns_to_baseline (s : Lts.Whole.State) (h : Lts.Whole.Reachable s)
+    (hd : s.pool.dropped = false) (hc : ∀ c ∈ s.conns, c.closed = true) :
+    ∃ ls s', (∀ l ∈ ls, Lts.Whole.isWindDown l = true) ∧ Lts.Whole.run s ls = some s' ∧
+      count s'.pool isLive ≤ minThreads ∧
+      (∀ p ∈ s'.pool.workers, p = .exited ∨ p = .waiting none) ∧ s'.pool.pending = [] ∧
+      (∀ (k : Nat) (c' : Lts.Whole.Conn), s'.conns[k]? = some c' → c'.pushed = c'.sent.length) ∧
+      s'.conns.map (·.sent) = s.conns.map (·.sent) ∧
+      s'.queue.taken = s.queue.taken ∧
+      (s.queue.taken ++ Lts.Queue.elems s'.queue.queue).Perm (Lts.Whole.allSent s) ∧
+      (∀ c' ∈ s'.conns, c'.sent.Sublist (s.queue.taken ++ Lts.Queue.elems s'.queue.queue)) := by
+  obtain ⟨ls, s', hls, hrun, hr', hp, hrest, hpend, hpu, hperm, hsub⟩ :=
+    Lts.Whole.wind_down h hc (fun hd' => by rw [hd] at hd'; cases hd')
+  have hq : ∀ p ∈ s'.pool.workers, p = .exited ∨ p = .waiting none :=
+    fun p hp' => Lts.Whole.rank_zero (hrest p hp')
+  exact ⟨ls, s', fun l hl => isWindDown_of_isWind (hls l hl), hrun,
+    idle_pool_at_baseline s'.pool (Lts.Whole.pool_reachable hr') (hp.dropped.trans hd) hq,
+    hq, hpend, hpu, hp.sent, hp.taken, hperm, hsub⟩
+
+/-- non-vacuity: the same burst with the pool alive — 7 live workers, a connection queued in the
+    pool, three requests not queued yet, every client gone. -/
+example : ∃ s, Lts.Whole.run {} [.accept .newThread, .accept .newThread, .accept .newThread,
+      .arrive 0 10, .arrive 0 11, .arrive 1 20, .pool (.begin 0), .pool (.begin 1),
+      .pool (.begin 4), .push 4 none, .pool (.look 0), .pool (.look 1),
+      .accept (.queued (some 0)), .arrive 3 30,
+      .close 0, .close 1, .close 2, .close 3] = some s ∧
+    s.pool.dropped = false ∧ (∀ c ∈ s.conns, c.closed = true) ∧
+    5 ≤ count s.pool isLive ∧ s.pool.pending ≠ [] ∧ ∃ c ∈ s.conns, c.pushed < c.sent.length :=
+  ⟨_, rfl, by decide⟩
 
 end TH.Props.C20
